@@ -208,7 +208,7 @@ PROPERTIES = {
         "assumptions": COMMON_ASSUMPTIONS + ["query responses are not compared byte-wise (a proto map field has no defined wire order)"],
         "tests": [
             {"test": "TestC19InProcess", "quick": 250, "thorough": 80000},
-            {"test": "TestC19FreshInstance", "quick": 40, "thorough": 6400},
+            {"test": "TestC19FreshInstance", "quick": 120, "thorough": 32000},
             {"test": "TestC19CrossProcess", "quick": 150, "thorough": 24000, "replicas": 2, "shards": 8},
         ],
     },
@@ -319,7 +319,7 @@ PROPERTIES["C10"] = {
     "assumptions": COMMON_ASSUMPTIONS + ["the positive half (authority + valid body succeeds) covers the known messages; ReplaceDepositForBurn's positive half is C05's real replacement",
                                          "the authority written in another bech32 spelling is a don't-care"],
     "tests": [{"test": "TestC10Authority", "quick": 4000, "thorough": 1200000},
-              {"test": "TestC10Wiring", "quick": 1500, "thorough": 400000}],
+              {"test": "TestC10Wiring", "quick": 4000, "thorough": 400000}],
 }
 
 PROPERTIES["C13"] = {
